@@ -1,6 +1,7 @@
 /-
 C01 main theorem, static part (with folds): a successful run of phase A of the frontend, under the
-hypotheses `hyps3Node` and with no imported tags, yields the certificate `NodeCert` for the finished
+hypotheses `hyps3Node` (the imports of the folds being in order: `CompOK.impok`, a consequence of
+`toIR` — `importsOKC_of_toIR`), yields the certificate `NodeCert` for the finished
 component — including, for every `@fold`, the certificate of the fold's component.
 -/
 import TrustfallModel.Proofs.InterpSpec4.StaticCertAux
@@ -123,44 +124,44 @@ variable (S : SchemaView) (H : HypEnv) (hS : H.S = S) (T : List TagEntry)
 include hS hT in
 theorem cert_fill3 :
     (∀ path vid pre node st acc st', fillNode S path vid pre node st = .ok (acc, st') →
-      ∀ (W : World) (miss : Bool) (L Rest AE : List Ev), EnvOK H W → TablesOK W tbl ftbl →
-        (∀ t r, W.NR t r ↔ ∃ e ∈ T, e.name = t ∧ e.field = r) → CompOK W AE → (W.lim = false ∨ noFold node = true) → hyps3Node H miss pre node = true → (treeOutputNames node).Nodup →
+      ∀ (W : World) (L Rest AE : List Ev), EnvOK H W → TablesOK W tbl ftbl →
+        (∀ t r, W.NR t r ↔ ∃ e ∈ T, e.name = t ∧ e.field = r) → CompOK W AE → (W.lim = false ∨ noFold node = true) → hyps3Node H pre node = true → (treeOutputNames node).Nodup →
         st.nextVid = st.nextEid + 1 → AE = L ++ evsNode node vid st.nextVid ++ Rest →
         (∀ p ∈ tblNode node vid st.nextVid, p ∈ tbl) → (∀ p ∈ ftblNode node st.nextVid, p ∈ ftbl) →
         HV W T path acc.verts → (∀ f ∈ acc.folds, f ∈ W.comp.folds) → (∀ e ∈ st'.tags, e ∈ T) →
-        ∃ ss, NodeCert W miss node vid L ss (evsNode node vid st.nextVid) ∧
+        ∃ ss, NodeCert W node vid L ss (evsNode node vid st.nextVid) ∧
           RunFacts W vid (nodeFields node) acc ss (evsFields (nodeFields node) st.nextVid)
             st.nextEid st'.nextEid) ∧
     (∀ path vid ty fields st acc st', fillFields S path vid ty fields st = .ok (acc, st') →
-      ∀ (W : World) (miss : Bool) (L Rest AE : List Ev), EnvOK H W → TablesOK W tbl ftbl →
-        (∀ t r, W.NR t r ↔ ∃ e ∈ T, e.name = t ∧ e.field = r) → CompOK W AE → (W.lim = false ∨ noFoldFields fields = true) → hyps3Fields H miss ty fields = true → (fieldsOutputNames fields).Nodup →
+      ∀ (W : World) (L Rest AE : List Ev), EnvOK H W → TablesOK W tbl ftbl →
+        (∀ t r, W.NR t r ↔ ∃ e ∈ T, e.name = t ∧ e.field = r) → CompOK W AE → (W.lim = false ∨ noFoldFields fields = true) → hyps3Fields H ty fields = true → (fieldsOutputNames fields).Nodup →
         st.nextVid = st.nextEid + 1 → Ev.vtx vid ∈ L → (W.comp.vertex? vid).isSome →
         AE = L ++ evsFields fields st.nextVid ++ Rest →
         (∀ p ∈ tblFields fields st.nextVid, p ∈ tbl) → (∀ p ∈ ftblFields fields st.nextVid, p ∈ ftbl) →
         HV W T path acc.verts → (∀ f ∈ acc.folds, f ∈ W.comp.folds) → (∀ e ∈ st'.tags, e ∈ T) →
-        ∃ ss, FieldsCert W miss fields vid L ss (evsFields fields st.nextVid) ∧
+        ∃ ss, FieldsCert W fields vid L ss (evsFields fields st.nextVid) ∧
           RunFacts W vid fields acc ss (evsFields fields st.nextVid) st.nextEid st'.nextEid) := by
   apply fill_induct S
     (P1 := fun path vid pre node st acc st' =>
-      ∀ (W : World) (miss : Bool) (L Rest AE : List Ev), EnvOK H W → TablesOK W tbl ftbl →
-        (∀ t r, W.NR t r ↔ ∃ e ∈ T, e.name = t ∧ e.field = r) → CompOK W AE → (W.lim = false ∨ noFold node = true) → hyps3Node H miss pre node = true → (treeOutputNames node).Nodup →
+      ∀ (W : World) (L Rest AE : List Ev), EnvOK H W → TablesOK W tbl ftbl →
+        (∀ t r, W.NR t r ↔ ∃ e ∈ T, e.name = t ∧ e.field = r) → CompOK W AE → (W.lim = false ∨ noFold node = true) → hyps3Node H pre node = true → (treeOutputNames node).Nodup →
         st.nextVid = st.nextEid + 1 → AE = L ++ evsNode node vid st.nextVid ++ Rest →
         (∀ p ∈ tblNode node vid st.nextVid, p ∈ tbl) → (∀ p ∈ ftblNode node st.nextVid, p ∈ ftbl) →
         HV W T path acc.verts → (∀ f ∈ acc.folds, f ∈ W.comp.folds) → (∀ e ∈ st'.tags, e ∈ T) →
-        ∃ ss, NodeCert W miss node vid L ss (evsNode node vid st.nextVid) ∧
+        ∃ ss, NodeCert W node vid L ss (evsNode node vid st.nextVid) ∧
           RunFacts W vid (nodeFields node) acc ss (evsFields (nodeFields node) st.nextVid)
             st.nextEid st'.nextEid)
     (P2 := fun path vid ty fields st acc st' =>
-      ∀ (W : World) (miss : Bool) (L Rest AE : List Ev), EnvOK H W → TablesOK W tbl ftbl →
-        (∀ t r, W.NR t r ↔ ∃ e ∈ T, e.name = t ∧ e.field = r) → CompOK W AE → (W.lim = false ∨ noFoldFields fields = true) → hyps3Fields H miss ty fields = true → (fieldsOutputNames fields).Nodup →
+      ∀ (W : World) (L Rest AE : List Ev), EnvOK H W → TablesOK W tbl ftbl →
+        (∀ t r, W.NR t r ↔ ∃ e ∈ T, e.name = t ∧ e.field = r) → CompOK W AE → (W.lim = false ∨ noFoldFields fields = true) → hyps3Fields H ty fields = true → (fieldsOutputNames fields).Nodup →
         st.nextVid = st.nextEid + 1 → Ev.vtx vid ∈ L → (W.comp.vertex? vid).isSome →
         AE = L ++ evsFields fields st.nextVid ++ Rest →
         (∀ p ∈ tblFields fields st.nextVid, p ∈ tbl) → (∀ p ∈ ftblFields fields st.nextVid, p ∈ ftbl) →
         HV W T path acc.verts → (∀ f ∈ acc.folds, f ∈ W.comp.folds) → (∀ e ∈ st'.tags, e ∈ T) →
-        ∃ ss, FieldsCert W miss fields vid L ss (evsFields fields st.nextVid) ∧
+        ∃ ss, FieldsCert W fields vid L ss (evsFields fields st.nextVid) ∧
           RunFacts W vid fields acc ss (evsFields fields st.nextVid) st.nextEid st'.nextEid)
   · -- node
-    intro path vid pre ct fields st post acc1 st' hco hfill ih W miss L Rest AE he htab hnr hc hlim hh hon h0
+    intro path vid pre ct fields st post acc1 st' hco hfill ih W L Rest AE he htab hnr hc hlim hh hon h0
       hA htbl hftbl hv hf hTs
     simp only [hyps3Node, hS, hco, Bool.and_eq_true] at hh
     obtain ⟨⟨hord, hvar⟩, hfields⟩ := hh
@@ -187,7 +188,7 @@ theorem cert_fill3 :
       intro pf hpf f ⟨hl, ha⟩
       obtain ⟨ty, hty⟩ := nodeFilters_left S post fields pf hpf
       exact ⟨⟨ty, by rw [hl]; exact hty⟩, ha.mono fun t r hr => refOK_vertex hfresh hr⟩
-    obtain ⟨ss, hcert, hrf⟩ := ih W miss (L ++ [.vtx vid]) Rest AE he htab hnr hc
+    obtain ⟨ss, hcert, hrf⟩ := ih W (L ++ [.vtx vid]) Rest AE he htab hnr hc
       (by simpa [noFold] using hlim) hfields
       (by simpa [treeOutputNames] using hon) h0 (by simp)
       (by rw [hV]; rfl) (by rw [hA']; simp)
@@ -204,15 +205,15 @@ theorem cert_fill3 :
     · exact ⟨by simpa using hrf.edges, by simpa using hrf.folds, hrf.evsEq, hrf.sortedE, hrf.bounds,
         fun f hf' => hrf.keysOK f (by simpa using hf'), by simpa [nodeFields] using hrf.outsP⟩
   · -- nil
-    intro path vid ty st W miss L Rest AE _ _ _ _ _ _ _ _ _ _ _ _ _ _ _ _
+    intro path vid ty st W L Rest AE _ _ _ _ _ _ _ _ _ _ _ _ _ _ _ _
     refine ⟨[], ?_, ?_⟩
     · unfold FieldsCert; exact ⟨rfl, rfl⟩
     · exact ⟨rfl, rfl, rfl, by simp, by simp, by simp, by simp [outPairs, evsFields, outTriples]⟩
   · -- prop
-    intro path vid ty n dirs rest st pty st1 acc1 st' _ h2 _ ih W miss L Rest AE he htab hnr hc hlim hh hon h0
+    intro path vid ty n dirs rest st pty st1 acc1 st' _ h2 _ ih W L Rest AE he htab hnr hc hlim hh hon h0
       hvL hvS hA htbl hftbl hv hf hTs
     obtain ⟨e1, e2, _, _⟩ := registerTags_inv h2
-    obtain ⟨ss, hcert, hrf⟩ := ih W miss L Rest AE he htab hnr hc (by simpa [noFoldFields] using hlim)
+    obtain ⟨ss, hcert, hrf⟩ := ih W L Rest AE he htab hnr hc (by simpa [noFoldFields] using hlim)
       (by simpa [hyps3Fields] using hh)
       (by
         have := outputDirs_names vid n pty dirs rest
@@ -233,14 +234,14 @@ theorem cert_fill3 :
       exact List.Perm.append_left _ hrf.outsP
   · -- fold
     intro path vid ty n params fds child rest st ed ps accIn st2 comp evs st3 post evPost st4 st5 accR
-      st' h1 h2 h3 h4 h5 h6 h7 ihC ihR W miss L Rest AE he htab hnr hc hlim hh hon h0 hvL hvS hA htbl hftbl hv
+      st' h1 h2 h3 h4 h5 h6 h7 ihC ihR W L Rest AE he htab hnr hc hlim hh hon h0 hvL hvS hA htbl hftbl hv
       hf hTs
     have hWlim : W.lim = false := by
       rcases hlim with h | h
       · exact h
       · simp [noFoldFields] at h
     simp only [hyps3Fields, hS, h1, h2, Bool.and_eq_true] at hh
-    obtain ⟨⟨⟨hpar, _⟩, ⟨hguard, hvars⟩, hchild⟩, hrest⟩ := hh
+    obtain ⟨⟨⟨hpar, _⟩, hvars, hchild⟩, hrest⟩ := hh
     have b1 : st.bump.nextVid = st.nextVid + 1 := rfl
     have b2 : st.bump.nextEid = st.nextEid + 1 := rfl
     have hs := (size_fill S).1 _ _ _ _ _ _ _ h3
@@ -328,7 +329,7 @@ theorem cert_fill3 :
       rw [hcv]
       exact find?_vertex_of_mem (V := ⟨r'.vid, r'.typeName, r'.coercedFrom, fs'⟩) hndv hmem
     have htabIn : TablesOK (W.inner F) tbl ftbl := ⟨htab.tg, htab.ft⟩
-    obtain ⟨ssIn, hcertIn, hrfIn⟩ := ihC (W.inner F) false [] [] _ ⟨he.d, he.a, he.e⟩ htabIn hnr hcIn
+    obtain ⟨ssIn, hcertIn, hrfIn⟩ := ihC (W.inner F) [] [] _ ⟨he.d, he.a, he.e⟩ htabIn hnr hcIn
       (Or.inl hWlim) hchild
       (List.nodup_append.1 (List.nodup_append.1 hon).1).2.1 (by rw [b1, b2, h0]) (by rw [b1]; simp)
       (fun p hp => htbl p (by
@@ -443,15 +444,6 @@ theorem cert_fill3 :
       refine (Forall2.unmap_left hpostF2).mono ?_
       intro p flt ⟨_, ha⟩
       exact ha.mono fun t r hr => refOK_post hr
-    have hguardF : F.post = [] ∨ miss = false := by
-      rw [hFpost]
-      simp only [Bool.or_eq_true] at hguard
-      rcases hguard with hg | hg
-      · left
-        have := countFilters_nil_of_none fds hg
-        rw [this] at h5
-        exact resolveFilters_nil_out h5
-      · right; simpa using hg
     have hmergeIn : mergeStages F.component.edges F.component.folds
         (F.component.edges.length + F.component.folds.length) = .ok ssIn := by
       rw [hFcomp, hce, hcf, ← hrfIn.edges, ← hrfIn.folds]
@@ -504,7 +496,7 @@ theorem cert_fill3 :
           subst hfield
           simp only
           rw [(htab.ft eid' fds' child' hftm).1, ← hn']; exact hct
-    have facts : FoldFacts W miss n params fds child vid L F ssIn
+    have facts : FoldFacts W n params fds child vid L F ssIn
         (evsNode child st.nextVid (st.nextVid + 1)) :=
       { lim := hWlim
         from_ := by rw [hF]; rfl
@@ -523,7 +515,6 @@ theorem cert_fill3 :
         fk := hfkF
         fouts := hfoutsP
         post := hpostOK
-        guard := hguardF
         root := by rw [hFcomp, hcr, hFto]
         merge := hmergeIn
         outs := houtsIn
@@ -534,7 +525,7 @@ theorem cert_fill3 :
         toVid := by rw [hFto, hFeid]; exact h0
         ndIn := nodup_of_sorted hsortedIn }
     -- the remaining selections
-    obtain ⟨ssR, hcertR, hrfR⟩ := ihR W miss (L ++ [.fold st.nextEid]) Rest AE he htab hnr hc (Or.inl hWlim)
+    obtain ⟨ssR, hcertR, hrfR⟩ := ihR W (L ++ [.fold st.nextEid]) Rest AE he htab hnr hc (Or.inl hWlim)
       hrest
       (List.nodup_append.1 hon).2.1 h05 (List.mem_append_left _ hvL) hvS
       (by rw [hA, hn5]; simp)
@@ -578,7 +569,7 @@ theorem cert_fill3 :
         exact hrfR.outsP
   · -- plain / optional / recursive edge
     intro path vid ty n params kind child rest st ed ps r accC st2 accR st' hk h1 h2 h3 h4 h5 ihC ihR
-      W miss L Rest AE he htab hnr hc hlim hh hon h0 hvL hvS hA htbl hftbl hv hf hTs
+      W L Rest AE he htab hnr hc hlim hh hon h0 hvL hvS hA htbl hftbl hv hf hTs
     simp only [hyps3Fields, hS, h1, h2, Bool.and_eq_true] at hh
     obtain ⟨⟨⟨hpar, hrecok⟩, hchild0⟩, hrest⟩ := hh
     have hlimC : W.lim = false ∨ noFold child = true := by
@@ -589,12 +580,12 @@ theorem cert_fill3 :
       rcases hlim with h | h
       · exact Or.inl h
       · simp only [noFoldFields, Bool.and_eq_true] at h; exact Or.inr h.2
-    have hchild : hyps3Node H (childMiss miss kind) ed.target child = true := by
+    have hchild : hyps3Node H ed.target child = true := by
       cases kind with
       | fold fds => exact absurd rfl (hk fds)
-      | plain => simpa [childMiss] using hchild0
-      | optional => simpa [childMiss] using hchild0
-      | recurse d => simpa [childMiss] using hchild0
+      | plain => simpa using hchild0
+      | optional => simpa using hchild0
+      | recurse d => simpa using hchild0
     have b1 : st.bump.nextVid = st.nextVid + 1 := rfl
     have b2 : st.bump.nextEid = st.nextEid + 1 := rfl
     have hs := (size_fill S).1 _ _ _ _ _ _ _ h4
@@ -626,7 +617,7 @@ theorem cert_fill3 :
       | recurse d => rfl
     rw [hfon] at hon
     rw [hev] at hA
-    obtain ⟨ssC, hcertC, hrfC⟩ := ihC W (childMiss miss kind) L
+    obtain ⟨ssC, hcertC, hrfC⟩ := ihC W L
       (evsFields rest (st.nextVid + 1 + size child) ++ Rest) AE he htab hnr hc hlimC hchild
       (List.nodup_append.1 hon).1 (by rw [b1, b2, h0]) (by rw [hA, b1]; simp)
       (fun p hp => htbl p (by simp only [tblFields, List.mem_append]; exact Or.inl (by simpa [b1] using hp)))
@@ -635,7 +626,7 @@ theorem cert_fill3 :
       (fun e' he' => hTs e' ((tags_mono S).2 _ _ _ _ _ _ _ h5 e' he'))
     rw [b1, b2] at hrfC
     rw [b1] at hcertC
-    obtain ⟨ssR, hcertR, hrfR⟩ := ihR W miss (L ++ evsNode child st.nextVid (st.nextVid + 1)) Rest AE
+    obtain ⟨ssR, hcertR, hrfR⟩ := ihR W (L ++ evsNode child st.nextVid (st.nextVid + 1)) Rest AE
       he htab hnr hc hlimR hrest (List.nodup_append.1 hon).2.1 kC.sync (List.mem_append_left _ hvL) hvS
       (by rw [hA, hs]; simp)
       (fun p hp => htbl p (by
@@ -653,8 +644,8 @@ theorem cert_fill3 :
           evsFields (.edge n params kind child :: rest) st.nextVid = evsC ++ evsR ∧
           e.fromVid = vid ∧ (W.comp.vertex? vid).isSome ∧ e.name = n ∧ EdgeKindOK W n params kind e ∧
           ParamsAgree W n params e.params ∧
-          NodeCert W (childMiss miss kind) child e.toVid L ssC' evsC ∧
-          FieldsCert W miss rest vid (L ++ evsC) ssR' evsR :=
+          NodeCert W child e.toVid L ssC' evsC ∧
+          FieldsCert W rest vid (L ++ evsC) ssR' evsR :=
         ⟨_, ssC, ssR, _, _, rfl, hev, rfl, hvS, rfl,
           kindIn3_edgeKindOK S H hS W he hk h3 _ _ _ n params ps hrecok,
           paramsAgreeB_sound H W he.d he.a he.e n params ps hpar, hcertC, hcertR⟩
